@@ -257,6 +257,9 @@ func (in *interp) fieldOf(structName, field string) (fieldInfo, []string, bool) 
 				return fieldInfo{typ: exprStr(f.Type), tag: tag}, []string{field}, true
 			}
 		}
+		if len(f.Names) == 0 && exprStr(f.Type) == field { // embedded struct named explicitly
+			return fieldInfo{typ: field, tag: tag}, []string{field}, true
+		}
 	}
 	// promoted through embedded structs
 	for _, f := range st.Fields.List {
